@@ -63,11 +63,12 @@ func (z *gzipWriter) Close() error {
 type gzipReader struct {
 	*gzip.Reader
 	pool *sync.Pool
+	eof  bool // the reader went back to the pool
 }
 
 // Decompress implements the Compressor interface.
 func (c *CompressorGzip) Decompress(r io.Reader) (io.Reader, error) {
-	z, ok := c.poolDecompressor.Get().(*gzipReader)
+	z, ok := c.poolDecompressor.Get().(*gzip.Reader)
 	if !ok {
 		newZ, err := gzip.NewReader(r)
 		if err != nil {
@@ -76,16 +77,22 @@ func (c *CompressorGzip) Decompress(r io.Reader) (io.Reader, error) {
 		return &gzipReader{Reader: newZ, pool: &c.poolDecompressor}, nil
 	}
 	if err := z.Reset(r); err != nil {
-		z.pool.Put(z)
+		c.poolDecompressor.Put(z)
 		return nil, err
 	}
-	return z, nil
+	return &gzipReader{Reader: z, pool: &c.poolDecompressor}, nil
 }
 
 func (z *gzipReader) Read(p []byte) (n int, err error) {
+	if z.eof {
+		return 0, io.EOF
+	}
 	n, err = z.Reader.Read(p)
 	if err == io.EOF {
-		z.pool.Put(z)
+		// Pool the gzip.Reader exactly once; a caller that reads again
+		// after EOF must not touch a reader another request may own.
+		z.eof = true
+		z.pool.Put(z.Reader)
 	}
 	return n, err
 }
